@@ -143,7 +143,7 @@ Definition Rel (s : tstate) (a : tspec) : Prop :=
 
 Definition op_ok (clock : Z) (o : top) : Prop :=
   match o with
-  | TAllow _ now n _ _ | TAllowF _ now n _ _ | TAllowC _ now n _ | TAllowLate _ now n _ _ => now = clock /\ 0 <= n
+  | TAllow _ now n _ _ | TAllowF _ now n _ _ | TAllowC _ now n _ | TAllowLate _ now n _ _ | TAllowD _ now n _ _ => now = clock /\ 0 <= n
   | TAdvance ms => 0 <= ms
   | _ => True
   end.
@@ -173,7 +173,7 @@ Proof.
   assert (MK : forall st' d l b' k, bucket_rel c st' b' -> rnow st' = k -> 0 <= k ->
             Rel (mkTS st' d l) (mkSp b' k d l)).
   { intros. unfold Rel; cbn. auto. }
-  destruct o as [i now n rescue brk|ms| | |i|i now n rescue r|i now n rescue|i|i now n rescue brk]; cbn [tstep sp_tstep dt tstore tdown tinsts sp_bucket sp_clock sp_tdown sp_insts].
+  destruct o as [i now n rescue brk|ms| | |i|i now n rescue r|i now n rescue|i now n rescue ran|i|i now n rescue brk]; cbn [tstep sp_tstep dt tstore tdown tinsts sp_bucket sp_clock sp_tdown sp_insts].
   - destruct (nth_error l i) as [t|] eqn:Hn; [|cbn [fst snd]; split; [reflexivity|split; [exact HR|cbn; lia]]].
     unfold reserve.
     destruct (alive t); cbn [negb].
@@ -199,6 +199,15 @@ Proof.
     split; [reflexivity|]. split; [|cbn; lia]. apply MK; auto.
   - destruct (nth_error l i) as [t|]; cbn [fst snd]; (split; [reflexivity|split; [exact HR|cbn; lia]]).
   - destruct (nth_error l i) as [t|]; [|cbn [fst snd]; split; [reflexivity|split; [exact HR|cbn; lia]]].
+    destruct (alive t); cbn [negb]; [|cbn [fst snd]; split; [reflexivity|split; [exact HR|cbn; lia]]].
+    destruct ran; [|cbn [fst snd]; split; [reflexivity|split; [exact HR|cbn; lia]]].
+    destruct Hok as [Hn1 Hn2]. subst now. unfold unix_s.
+    pose proof (script_refines_bucket c Hrate Hburst Hkeys st b n RB ltac:(lia) Hn2) as S.
+    cbv zeta in S.
+    destruct (bucket_take (rate c) (burst c) b (rnow st / 1000) n) as [b' g].
+    destruct S as [st' [S1 [S2 [S3 S4]]]]. rewrite S1. cbn [fst snd].
+    split; [reflexivity|]. split; [|cbn; lia]. rewrite <- S3. apply MK; auto; lia.
+  - destruct (nth_error l i) as [t|]; [|cbn [fst snd]; split; [reflexivity|split; [exact HR|cbn; lia]]].
     destruct (monitor t); cbn [fst snd]; (split; [reflexivity|]); (split; [|cbn; lia]); auto.
   - destruct (nth_error l i) as [t|] eqn:Hn; [|cbn [fst snd]; split; [reflexivity|split; [exact HR|cbn; lia]]].
     unfold reserve_late.
@@ -215,10 +224,12 @@ Qed.
 
 Lemma twf_cons clock o ops : twf clock (o :: ops) = true -> op_ok clock o /\ twf (clock + dt o) ops = true.
 Proof.
-  destruct o as [i now n rescue brk|ms| | |i|i now n rescue r|i now n rescue|i|i now n rescue brk]; cbn [twf op_ok dt]; rewrite ?Z.add_0_r; intro H; auto.
+  destruct o as [i now n rescue brk|ms| | |i|i now n rescue r|i now n rescue|i now n rescue ran|i|i now n rescue brk]; cbn [twf op_ok dt]; rewrite ?Z.add_0_r; intro H; auto.
   - apply andb_true_iff in H. destruct H as [H H3]. apply andb_true_iff in H. destruct H as [H1 H2].
     apply Z.eqb_eq in H1. apply Z.leb_le in H2. auto.
   - apply andb_true_iff in H. destruct H as [H1 H2]. apply Z.leb_le in H1. auto.
+  - apply andb_true_iff in H. destruct H as [H H3]. apply andb_true_iff in H. destruct H as [H1 H2].
+    apply Z.eqb_eq in H1. apply Z.leb_le in H2. auto.
   - apply andb_true_iff in H. destruct H as [H H3]. apply andb_true_iff in H. destruct H as [H1 H2].
     apply Z.eqb_eq in H1. apply Z.leb_le in H2. auto.
   - apply andb_true_iff in H. destruct H as [H H3]. apply andb_true_iff in H. destruct H as [H1 H2].
@@ -255,7 +266,7 @@ Proof.
   - cbv zeta. split; [|split; [auto|lia]].
     pose proof (level_lipschitz (rate c) (burst c) ltac:(lia) (sp_bucket a) t0 (unix_s (sp_clock a)) Ht0). lia.
   - apply twf_cons in Hwf. destruct Hwf as [Hok Hwf].
-    destruct o as [i now n rescue brk|ms| | |i|i now n rescue r|i now n rescue|i|i now n rescue brk]; cbn [sp_tstep dt] in *; rewrite ?Z.add_0_r in Hwf.
+    destruct o as [i now n rescue brk|ms| | |i|i now n rescue r|i now n rescue|i now n rescue ran|i|i now n rescue brk]; cbn [sp_tstep dt] in *; rewrite ?Z.add_0_r in Hwf.
     + destruct (nth_error (sp_insts a) i) as [t|]; [|cbn [fst]; apply IH; auto].
       destruct (alive t); cbn [negb]; [|cbn [fst snd]; destruct rescue; apply IH; auto].
       destruct (sp_tdown a || negb brk)%bool; [cbn [fst snd]; destruct rescue; apply (IH (mkSp _ _ _ _)); auto|].
@@ -281,6 +292,19 @@ Proof.
       destruct (alive t); cbn [negb]; [|cbn [fst snd]; apply IH; auto].
       destruct (token_reply t r rescue) as [t' ob]. cbn [fst snd]. apply (IH (mkSp _ _ _ _)); auto.
     + destruct (nth_error (sp_insts a) i) as [t|]; cbn [fst snd]; apply IH; auto.
+    + destruct (nth_error (sp_insts a) i) as [t|]; [|cbn [fst]; apply IH; auto].
+      destruct (alive t); cbn [negb]; [|cbn [fst snd]; apply IH; auto].
+      destruct ran; [|cbn [fst snd]; apply IH; auto].
+      destruct Hok as [-> Hn].
+      pose proof (take_accounts (rate c) (burst c) ltac:(lia) ltac:(lia) (sp_bucket a) (unix_s (sp_clock a)) n HT Hn) as A.
+      destruct (bucket_take (rate c) (burst c) (sp_bucket a) (unix_s (sp_clock a)) n) as [b' g].
+      destruct A as [A1 [A2 [A3 A4]]]. cbn [fst snd].
+      specialize (IH (mkSp b' (sp_clock a) (sp_tdown a) (sp_insts a)) (unix_s (sp_clock a)) Hwf (proj1 A2) (Z.le_refl _)).
+      cbv zeta in IH. destruct IH as [I1 [I2 I3]]. cbn [sp_clock sp_bucket] in I1, I3.
+      assert (L : lvl b' (unix_s (sp_clock a)) = btokens b') by (rewrite <- A3; apply level_at_own_time; auto).
+      pose proof (level_lipschitz (rate c) (burst c) ltac:(lia) (sp_bucket a) t0 (unix_s (sp_clock a)) Ht0).
+      cbv zeta. split; [|split; auto].
+      destruct g; lia.
     + destruct (nth_error (sp_insts a) i) as [t|]; [|cbn [fst]; apply IH; auto].
       destruct (monitor t); cbn [fst]; [apply (IH (mkSp _ _ _ _))|apply IH]; auto.
     + destruct (nth_error (sp_insts a) i) as [t|]; [|cbn [fst]; apply IH; auto].
